@@ -78,6 +78,7 @@ let bool_of = function A "1" -> true | A "0" -> false | _ -> failwith "bool expe
 
 let rec doc_of = function
   | A "null" -> JNull
+  | A "nz" -> JNum (NFlt (Z0, Z0))   (* negative zero in the document: the number 0 *)
   | L [A "b"; b] -> JBool (bool_of b)
   | L [A "i"; z] -> JNum (NInt (z_of z))
   | L [A "f"; m; e] -> JNum (NFlt (z_of m, z_of e))
@@ -246,12 +247,12 @@ let handle_ref id doc path repl =
   let d = doc_of (parse_sexp doc) in
   let p = str_of (parse_sexp path) in
   let r = doc_of (parse_sexp repl) in
-  (match m_reference p d with
+  (match m_reference_fast p d with   (* = m_reference p d: RefFast.m_reference_fast_eq *)
    | Some (l, _) ->
      let after = (match set_at d l r with Some d2 -> sx_doc d2 | None -> "SETFAIL") in
      Printf.printf "%s\tM\tOK\t%s\t%s\n" id (loc_str l) after
    | None -> Printf.printf "%s\tM\tNONE\t-\t%s\n" id (sx_doc d));
-  (match rfc_reference p d with
+  (match rfc_reference_fast p d with   (* = rfc_reference p d: RefFast.rfc_reference_fast_eq *)
    | Some (l, _) ->
      let after = (match set_at d l r with Some d2 -> sx_doc d2 | None -> "SETFAIL") in
      Printf.printf "%s\tR\tOK\t%s\t%s\n" id (loc_str l) after
